@@ -522,6 +522,21 @@ pub mod debug {
             self.0.set_bits(idx..=idx + 1, size as usize);
         }
 
+        /// Clear condition and size of the associated (disabled) breakpoint.
+        ///
+        /// The kernel validates a new address written into a debug register against the
+        /// length still recorded for that register, stale bits make the register unusable
+        /// for an address with a weaker alignment.
+        ///
+        /// # Arguments
+        ///
+        /// * `dr`: address debug register number
+        #[inline(always)]
+        pub fn reset_bp(&mut self, dr: DebugRegisterNumber) {
+            let idx = 16 + (dr as usize * 4);
+            self.0.set_bits(idx..=idx + 3, 0);
+        }
+
         /// Enable/disable a breakpoint either as global or local.
         ///
         /// # Arguments
